@@ -1,5 +1,6 @@
 """C08 - piecewise estimators: a partition by the binner with one local model per bucket (specs: Piecewise, PiecewiseSched)."""
 import itertools
+import os
 import warnings
 import numpy
 from .. import boot, tlc, stubs
@@ -48,6 +49,54 @@ def cells_of(model, X):
     tr = b.transform(X)
     tups = [tuple(numpy.asarray(r.todense()).ravel().astype(numpy.int32)) for r in tr]
     return tups, True
+
+
+def attribute(sets, cell, cls, isclf, hint=None, allowed=None):
+    """sets: the row sets (1-based ids) of the recorded fits.  Returns for each fit the rank of the bucket it can
+    legally belong to (-1 = fallback on all rows, -2 = none), such that distinct fits get distinct buckets.
+    hint: the attribution read off the estimator's own attributes (estimators_[i] -> bucket i, mean_estimator_ -> -1); it
+    is used when it is legal for every fit.  Otherwise (the models are kept elsewhere) a maximum matching on the row
+    sets, restricted by allowed(j, bucket) - whether fit j can have produced the outputs observed for that bucket."""
+    n = len(cell)
+    cells = sorted(set(cell))
+    own = [set(r + 1 for r in range(n) if cell[r] == c) for c in cells]
+    allc = set(cls)
+    allrows = set(range(1, n + 1))
+
+    def legal(i, S):
+        if not own[i] <= S:
+            return False
+        extra = S - own[i]
+        if not isclf:
+            return not extra
+        missing = allc - set(cls[r - 1] for r in own[i])
+        got = [cls[r - 1] for r in extra if 1 <= r <= n]
+        return len(got) == len(extra) and sorted(got) == sorted(missing)
+
+    if hint is not None and len(set(hint)) == len(hint) and all(
+            (b == -1 and S == allrows) or (0 <= b < len(cells) and legal(b, S)) for b, S in zip(hint, sets)):
+        return list(hint)
+    ok = allowed or (lambda j, b: True)
+    cand = [[i for i in range(len(cells)) if legal(i, S) and ok(j, i)] + ([-1] if S == allrows and ok(j, -1) else [])
+            for j, S in enumerate(sets)]
+    match = {}          # bucket -> fit
+
+    def augment(j, seen):
+        for b in cand[j]:
+            if b in seen:
+                continue
+            seen.add(b)
+            if b not in match or augment(match[b], seen):
+                match[b] = j
+                return True
+        return False
+    # buckets first (so that the fallback is what remains for a fit on all rows)
+    for j in range(len(sets)):
+        augment(j, set())
+    out = [-2] * len(sets)
+    for b, j in match.items():
+        out[j] = b
+    return out
 
 
 def one_trace(tid, rng, thorough):
@@ -100,12 +149,13 @@ def one_trace(tid, rng, thorough):
             cprobe = [allc.index(c) + 1 for c in cprobe]
         t["cell"] = ctrain
         t["cls"] = [int(v) for v in y] if isclf else [0] * n
-        # which model object recorded each fit: estimators_[i] (bucket i), mean_estimator_ (-1), anything else (-2)
-        who = {id(e): i for i, e in enumerate(model.estimators_)}
-        who[id(model.mean_estimator_)] = -1
-        for f in fits:
-            ev.append(dict(a="fit", rows=f["rows"], ys=f["ys"], ws=f["ws"], bucket=who.get(f["obj"], -2)))
-        ev.append(dict(a="fitted", estimators=[sorted(getattr(e, "rows_", [])) for e in model.estimators_], returns_self=ret is model))
+        # which bucket each recorded fit belongs to is found on the row sets alone (where the implementation keeps its
+        # models is its own business): a matching of fits to buckets / the fallback, checked by the specification
+        who = {id(e): i for i, e in enumerate(getattr(model, "estimators_", []) or [])}
+        who[id(getattr(model, "mean_estimator_", None))] = -1
+        hint = None if os.environ.get("VERIF_C08_NOHINT") else [who.get(f["obj"], -2) for f in fits]
+        fit_at = len(ev)
+        ev.append(dict(a="fitted", returns_self=ret is model))
         t["returns_self"] = ret is model
         t["untouched"] = bool(numpy.array_equal(Xfit, X))
         if rng.random() < 0.5:
@@ -136,6 +186,23 @@ def one_trace(tid, rng, thorough):
             else:
                 e["out"] = int(round(float(pred[q])))
             ev.append(e)
+        # attribution of the recorded fits (see attribute): consistent with the outputs observed for every seen cell
+        cells_sorted = sorted(set(ctrain))
+        seen_out = {}
+        for e in ev[fit_at + 1:]:
+            if e.get("a") == "predict" and e["cell"] in cells_sorted:
+                seen_out.setdefault(cells_sorted.index(e["cell"]), []).append((e["id"], e["out"]))
+        nclasses = len(set(t["cls"]))
+
+        def allowed(j, b):
+            S = fits[j]["rows"]
+            for pid, out in seen_out.get(b, []):
+                want = (sum(S) + pid) % nclasses if isclf else sum(int(t["y"][r - 1]) for r in S) + pid
+                if want != out:
+                    return False
+            return True
+        att = attribute([set(f["rows"]) for f in fits], ctrain, t["cls"], isclf, hint=hint, allowed=allowed)
+        ev[fit_at:fit_at] = [dict(a="fit", rows=f["rows"], ys=f["ys"], ws=f["ws"], bucket=b) for f, b in zip(fits, att)]
         # the same fit under other task orders (schedule replay at the granularity of the RNG call)
         if isclf and seed is not None and len(model.estimators_) >= 2:
             base_sets = [sorted(e.rows_) for e in model.estimators_]
